@@ -118,6 +118,8 @@ def run(ctx):
     # the reference's outputs computed above, and the injected states against the model
     spec_of = dict(zip([sc[5:] for sc in spec_cases], spec_out))
     sub = [c for c in cases if c.startswith("hash ")][::3]
+    if ctx.tier != "quick":
+        sub = [c for c in sub if len(c) < 12000]      # the model costs ~130 us per input byte: the 70 kB inputs stay with the default build
     for name in ["lowmem", "nosimd", "static-sse2"]:
         hb2 = ctx.harness(name)
         if hb2 is None:
